@@ -153,9 +153,9 @@ func runH9Scenario(t *testing.T, vt *vhT, slow string, cause string, units int) 
 
 // runH9SlowDial: a Connect whose peer is slow to answer must not stop the server from serving the other clients of the
 // same listener while the dial is in progress (real time: a goroutine waiting for a mutex cannot be skipped by virtual time)
-func runH9SlowDial(vt *vhT) {
-	vt.OpSync("slowcb Connect-dial other-client 1")
-	lis := []*h2Listener{{stream: true, ip: net.ParseIP("10.0.0.1").To4()}}
+func runH9SlowDial(vt *vhT, stream bool) {
+	vt.OpSync("slowcb Connect-dial other-client-stream=%v 1", stream)
+	lis := []*h2Listener{{stream: stream, ip: net.ParseIP("10.0.0.1").To4()}}
 	w := newH2World(vt, ServerConfig{}, lis, true, false)
 	h := &h2Hist{vt: vt, w: w, lastTid: map[string]int{}, owner: map[string]string{}}
 	nonce, _ := w.srv.nonceHash.Generate()
@@ -170,7 +170,11 @@ func runH9SlowDial(vt *vhT) {
 	answered := func(c *h2Client, wait time.Duration) bool {
 		end := time.Now().Add(wait)
 		for time.Now().Before(end) {
-			if fr, _ := c.takeFrames(); len(fr) > 0 {
+			if c.conn == nil {
+				if len(c.pc.drain()) > 0 {
+					return true
+				}
+			} else if fr, _ := c.takeFrames(); len(fr) > 0 {
 				return true
 			}
 			time.Sleep(5 * time.Millisecond)
@@ -184,7 +188,14 @@ func runH9SlowDial(vt *vhT) {
 	send(a, "alice", stun.NewType(stun.MethodAllocate, stun.ClassRequest), proto.RequestedTransport{Protocol: proto.ProtoTCP})
 	send(b, "bob", stun.NewType(stun.MethodAllocate, stun.ClassRequest), proto.RequestedTransport{Protocol: proto.ProtoTCP})
 	if !answered(a, 3*time.Second) || !answered(b, 3*time.Second) {
-		vt.Alarm("h9-setup", "Allocate over the stream listener not answered")
+		vt.Alarm("h9-setup", "Allocate over the listener (stream=%v) not answered", stream)
+		vt.Obs("ok")
+		w.shutdownWith(func() { time.Sleep(50 * time.Millisecond) })
+		return
+	}
+	if !stream && w.srv.AllocationCount() == 0 {
+		// a datagram listener refuses TCP allocations (RFC 6062 5.1): there is no Connect that could hold up its one read loop
+		vt.Stat("h9.tcp-allocation-over-udp.refused")
 		vt.Obs("ok")
 		w.shutdownWith(func() { time.Sleep(50 * time.Millisecond) })
 		return
@@ -197,7 +208,8 @@ func runH9SlowDial(vt *vhT) {
 	t0 := time.Now()
 	send(b, "bob", stun.NewType(stun.MethodRefresh, stun.ClassRequest), proto.Lifetime{Duration: 10 * time.Minute})
 	if !answered(b, 1200*time.Millisecond) {
-		vt.Alarm("manager-blocked-by-dial", "another client's Refresh was not answered within 1.2 s while a Connect's dial (2 s) was in progress")
+		vt.Alarm("manager-blocked-by-dial", "another client's Refresh was not answered within 1.2 s while a Connect's dial (2 s) was in progress (stream listener: %v)", stream)
+		t0 = time.Now().Add(-time.Second) // the probe below gets 200 ms of its own
 	}
 	done := make(chan int, 1)
 	go func() { done <- w.srv.AllocationCount() }()
@@ -217,7 +229,9 @@ func TestVerifH9(t *testing.T) {
 	vt := vhOpen("h9")
 	defer vt.Close()
 	vt.Watchdog(120 * time.Second)
-	runH9SlowDial(vt)
+	runH9SlowDial(vt, true)
+	vt.Flush()
+	runH9SlowDial(vt, false)
 	vt.Flush()
 	for _, slow := range []string{"OnPermissionCreated", "OnChannelCreated", "OnAllocationCreated", "OnPermissionDeleted", "OnChannelDeleted", "OnAllocationDeleted", "none"} {
 		for _, cause := range []string{"expiry", "refresh0", "relayerr", "close"} {
